@@ -11,7 +11,7 @@ import (
 
 func init() {
 	register(&propDef{ID: "C09", Run: runC09,
-		Explain: "Structural necessary conditions of 'concurrent listeners and backend changes never corrupt or kill the proxy', decided from the call graph, goroutine roots and must-hold locksets of /repo: (1) table-discipline: every map- or slice-typed field of a package struct type and every package-level map/slice variable (payload and configuration types excepted) is, in this order, single-threaded (main/init only), immutable after construction (every write on a freshly allocated object, in init, or through a mutator applied only to fresh objects), protected by one lock class held at every non-constructor access, or confined to the proxy message loop of an object that is not shared between listeners (with startup accesses from main admitted only before the loops can receive traffic); (2) hand-off: an object sent on a channel (directly or through HandleRawMessage / ConnectionAccepted / HandleBackend*) is not used by the sender afterwards, a pooled buffer is not used after Free; (3) lock-order: the held->acquired relation over the call graph is acyclic and no lock class is re-acquired while held; (4) freshness: the message loop is started once per Proxy on the freshly allocated object, and per-listener objects are created inside the listener loop of startProxy.",
+		Explain: "Structural necessary conditions of 'concurrent listeners and backend changes never corrupt or kill the proxy', decided from the call graph, goroutine roots and must-hold locksets of /repo: (1) table-discipline: every map- or slice-typed field of a package struct type and every package-level map/slice variable (payload and configuration types excepted) is, in this order, single-threaded (main/init only), immutable after construction (every write on a freshly allocated object, in init, or through a mutator applied only to fresh objects), protected by one lock class held at every non-constructor access, or confined to the proxy message loop of an object that is not shared between listeners (with startup accesses from main admitted only before the loops can receive traffic); (2) hand-off: an object sent on a channel (directly or through HandleRawMessage / ConnectionAccepted / HandleBackend*) is not used by the sender afterwards, a pooled buffer is not used after Free; (3) lock-order: the held->acquired relation over the call graph is acyclic and no lock class is re-acquired while held; (4) field-discipline: the same classification for every scalar, pointer and interface field of those types, extended by 'every access through sync/atomic' and 'published before its readers start' (each reading thread is started by a go statement that the write must precede, transitively); (5) freshness: the message loop is started once per Proxy on the freshly allocated object, and per-listener objects are created inside the listener loop of startProxy.",
 		NotDecided: "delivery and liveness under load; data races on scalar/pointer fields (TCPServerTransport.exit, TCPBackend.conn); the startup window in which ProxyItem.start() still ranges over transports while the first message already triggers connectionEstablished."})
 }
 
@@ -19,6 +19,7 @@ const loopRoot = "(*Proxy).receiveAndProcessMessage"
 
 func runC09(c *Ctx) {
 	c09Tables(c)
+	c09Fields(c)
 	c09LockOrder(c)
 	c09HandOff(c)
 	c09Freshness(c)
@@ -606,4 +607,150 @@ func c09Freshness(c *Ctx) {
 		}
 	}
 	c.floor(rule, 3)
+}
+
+// startedAfter: every go statement that starts thread root executes after instruction wr (same function and
+// dominated by it), or lies in code that itself runs only in threads started after wr.
+func (t *threads) startedAfter(wr ssa.Instruction, root *ssa.Function, depth int) bool {
+	if depth > 4 {
+		return false
+	}
+	sites := t.GoSites[root]
+	if len(sites) == 0 {
+		return false
+	}
+	for _, g := range sites {
+		if g.Parent() == wr.Parent() {
+			if !mustPrecede(g.Parent(), []ssa.Instruction{wr}, g, nil) {
+				return false
+			}
+			continue
+		}
+		// the go statement is in another function: that function must run only in threads started after wr
+		ok := len(t.Of[g.Parent()]) > 0
+		for th := range t.Of[g.Parent()] {
+			var r2 *ssa.Function
+			for _, r := range t.Roots {
+				if t.w.fname(r) == th {
+					r2 = r
+				}
+			}
+			if r2 == nil || r2 == root || !t.startedAfter(wr, r2, depth+1) {
+				ok = false
+			}
+		}
+		if !ok {
+			return false
+		}
+	}
+	return true
+}
+
+// c09Fields: the same discipline for scalar, pointer and interface fields (thorough: evaluated in both tiers, cheap).
+func c09Fields(c *Ctx) {
+	w := c.w
+	t := w.Threads()
+	rule := "field-discipline"
+	shared, _ := sharedTypes(w)
+	rootByName := map[string]*ssa.Function{}
+	for _, r := range t.Roots {
+		rootByName[w.fname(r)] = r
+	}
+	n := 0
+	for _, s := range t.FieldSubjects() {
+		if len(s.Accesses) == 0 {
+			continue
+		}
+		n++
+		// 0. never written outside construction
+		var writes, reads []access
+		for _, a := range s.Accesses {
+			if a.Fresh {
+				continue
+			}
+			if a.Write {
+				writes = append(writes, a)
+			} else {
+				reads = append(reads, a)
+			}
+		}
+		pos := w.ipos(s.Accesses[0].In)
+		if len(writes) == 0 {
+			c.okTrivial(rule, s.Name, pos, "set at construction only")
+			continue
+		}
+		class, detail, bad := classifySubject(w, t, s, shared)
+		if class != "" {
+			c.ok(rule, s.Name, pos, class+": "+detail)
+			continue
+		}
+		// atomic-only
+		allAtomic := true
+		for _, a := range s.Accesses {
+			if !a.Fresh && !a.Locks["atomic"] {
+				allAtomic = false
+			}
+		}
+		if allAtomic {
+			c.ok(rule, s.Name, pos, "atomic: every access goes through sync/atomic")
+			continue
+		}
+		// published before the reading threads start / written and read by one thread
+		var open []access
+		for _, wa := range writes {
+			for _, ra := range append(append([]access{}, reads...), writes...) {
+				if ra.In == wa.In {
+					continue
+				}
+				if len(intersect(wa.Locks, ra.Locks)) > 0 {
+					continue
+				}
+				conflict := false
+				for _, th := range ra.Threads {
+					same := len(wa.Threads) == 1 && wa.Threads[0] == th
+					if same {
+						continue
+					}
+					r := rootByName[th]
+					if r != nil && t.startedAfter(wa.In, r, 0) {
+						continue
+					}
+					// startup writes on the main thread before traffic can arrive
+					if onlyThreads(wa, "main") && startupFn(w, wa.Fn) && th == loopRoot {
+						continue
+					}
+					conflict = true
+				}
+				if conflict {
+					open = append(open, wa, ra)
+				}
+			}
+		}
+		if len(open) == 0 {
+			c.ok(rule, s.Name, pos, "published before its readers start (every reading thread is started after the write, or shares the writer's thread or lock)")
+			continue
+		}
+		_ = bad
+		var facts []string
+		seen := map[ssa.Instruction]bool{}
+		for _, a := range open {
+			if !seen[a.In] && len(facts) < 8 {
+				seen[a.In] = true
+				facts = append(facts, a.String(w))
+			}
+		}
+		c.bad(rule, s.Name, w.ipos(open[0].In), "field "+s.Name+" is written by one thread and accessed by another without a common lock, atomic access or a start-of-thread ordering: a data race ("+detail+")", facts...)
+	}
+	if n < 50 {
+		c.undecided(rule, "floor", "-", fmt.Sprintf("only %d fields inspected", n))
+	}
+}
+
+// startupFn: the function runs on the main thread while the proxies are being started (below (*Proxy).Start).
+func startupFn(w *World, fn *ssa.Function) bool {
+	st := w.Fn("(*Proxy).Start")
+	if st == nil {
+		return false
+	}
+	return w.reachableFrom([]*ssa.Function{st}, false)[fn]
 }
